@@ -1003,4 +1003,55 @@ def run(ctx: C.Ctx):
     n = part_a(ctx, stats)
     nb, samples_b = part_b(ctx, stats)
     nc, samples_c = part_c(ctx, stats)
-    ctx.coverage.update({"evaluations": n + nb + nc, "distribution": stats, "samples": samples_b[:1] + samples_c})
+    ctx.coverage.update({
+        "evaluations": n + nb + nc,
+        "distinct_nontrivial": stats.get("infer_distinct_nontrivial", 0) + stats.get("decl_distinct_nontrivial", 0) + stats.get("value_distinct_nontrivial", 0),
+        "distribution": stats,
+        "samples": samples_b[:1] + samples_c,
+        "rule": ("(a) _infer_expr_type: ~115 fixed boundary expressions (every clause of the model, with/without ctx, with generated var_types / "
+                 "functions / aliases / device-name sets) + seeded random typed expressions (depth 1-4, all node kinds incl. calls to user functions, "
+                 "methods, lists, subscripts, f-strings, unsupported nodes) + the shared Lang generator; compared: label, ValueError, and the MUTATED "
+                 "var_types; _cpp_type/_default_value_for_type/_annotation_to_type_label enumerated; _merge_return_types/_merge_element_types exhaustive "
+                 "over a 9-10 label pool up to length 3 plus random longer lists. non-trivial = distinct (expression, var_types) whose root is not a "
+                 "constant/name.  (b) statement programs (assign, aug-assign, if/elif/else, while, for, helper defs with returns and two or more call "
+                 "signatures, calls before the def, while True) -> real parse+emit -> declared C types of globals, loop locals, every emitted function "
+                 "variant (return type, parameters, locals) parsed from the declaration lines of the sketch = Lang/Decl.v run_items; non-trivial = "
+                 "accepted programs with >= 2 declarations.  (c) runnable programs inside the guard (names receive bool/int/float values in all orders "
+                 "that only ever go down from the declaring kind, at top level, in branches, loops, the main loop, helper parameters via several call "
+                 "signatures, helper results joined from differently typed returns, hoisted names) -> firmware under the mock core vs CPython: every "
+                 "value written to Serial compared at value level (bool = 0/1, floats to the 2 printed decimals); non-trivial = programs with >= 4 "
+                 "compared values."),
+        "guard": ("expressions: Lang/InferGuard.v guard (no string contagion onto a numeric name, numeric operands, `/` and `**` only with a float "
+                  "operand, no unary minus on a bool label, and/or only on bool labels, conditional expression with equal or numeric labels, abs/min/max "
+                  "on int/bool labels, uniform or numeric list elements, subscripts of list labels, no tuples). programs (theorem): flat_guard = every "
+                  "right-hand side inside guard and every assignment to a typed name infers the label it already has. programs (oracle, wider, by "
+                  "construction of the generator): every label assigned to a name is <= the label of its declaring (first in text order) assignment in "
+                  "bool < int < float, String alone; a name whose current label is below its declared one is not read by a right-hand side; names first "
+                  "assigned inside a nested block keep one label; helper bodies read only parameters and locals; call arguments are variables or "
+                  "int/bool literals; no `//`, `%`, `**`, int `/` int, str() of a bool (C01's operator/text-form findings)."),
+        "unmodelled": [
+            "calls to user functions from inside function bodies (recursion, helper calling helper: the re-entrant _ensure_function_variant with its "
+            "_refreshing_functions set) - the statement model runs function bodies with the static function table; covered only by oracle (c) (template `twice`)",
+            "tuple assignment / swap temporaries, try/except bodies, list variables at statement level (append, element assignment), "
+            "function_param_types carried over between re-parses of the same def",
+            "_to_c_expr failures (untranslatable right-hand sides abort the parse before typing) - generators only emit translatable expressions",
+            "the annotated-return override (override_return) is modelled and refuted at model level, but is unreachable through parse(): RE_DEF does not "
+            "match a header with `-> T` and _parse_function rebuilds the header without it",
+            "conditions, loop bounds and mon.write arguments are assumed to have no typing effect (validated by (b): they are present in the programs)",
+            "C int width (16-bit AVR overflow), float32 rounding beyond the 2 printed decimals, IEEE specials",
+            "Python statement semantics for branches/loops/functions: the declaration theorem is proved for straight-line top-level programs only; "
+            "control flow is covered by correspondence (b) and oracle (c)",
+        ],
+        "trusted_base": C.COMMON_TRUSTED + [
+            "harness/gen/c02_infer.py (regenerates coq/Gen/InferTables.v: _BUILTIN_CALL_RETURN_TYPES, annotation labels; fail-closed)",
+            "coq/Lang/PySem.v as the meaning of Python expressions (validated against CPython eval by harness/pysem_check.py)",
+            "harness/pyast_wire.py + label/program codecs in harness/props/c02.py; regex extraction of declaration lines from the emitted sketch (harness/impl/c02_impl.py cpp_decls)",
+            "mock Arduino core (mock/) + g++ -O0 as 'the device'; CPython 3.12 + harness/impl/pyrun_impl.py as 'what Python holds'",
+            "value-level comparison of Serial lines (same_value_line): bool = 0/1, numbers to 0.0051 when the device prints decimals",
+        ],
+    })
+    ctx.assumptions += [
+        "floats are exact rationals in the models; generated float literals are dyadic with small denominators",
+        "C int is unbounded in the models (no-overflow guard of C01); generated values stay far below 2^31",
+        "theorems are about the Gallina models Lang/Infer.v and Lang/Decl.v; their distance from parser.py is bounded by correspondences (a) and (b)",
+    ]
